@@ -1,3 +1,4 @@
+import Firebolt.TransExpected
 import Firebolt.Properties.TransBase
 import Firebolt.Properties.C07
 import Firebolt.Properties.RefreshConc
@@ -320,16 +321,10 @@ theorem translated_refreshCandidates (s : St) (σ : Env) :
 unassigned, and — **whether or not Unassign failed** — a consumer with parallel recovery tells its recovery consumer that it
 owns nothing and refreshes it before the revocation returns; without parallel recovery nothing else happens -/
 theorem translated_revoke (σ : Env) :
-    obs Trans.kcRevoke σ =
-      ⟨[("k.assignPartitionsCancel", []), ("k.assignPartitionsMutex.Lock", []),
-        ("defer func() { k.assignPartitionsMutex.Unlock() k.assignPartitionsCtx, k.assignPartitionsCancel = context.WithCancel(context.Background()) }", []),
-        ("k.consumer.Unassign", [])] ++
-        (if σ "k.recoveryConsumerEnabled" ≠ 0 then
-          [("k.recoveryConsumer.SetAssignedPartitions", [σ "[]kafka.TopicPartition{}"]), ("k.recoveryConsumer.RefreshAssignments", [])]
-         else []), none, false⟩ := by
+    obs Trans.kcRevoke σ = TransExpected.kcRevoke σ := by
   by_cases h1 : σ "k.consumer.Unassign#0" = 0 <;> by_cases h2 : σ "k.recoveryConsumerEnabled" = 0 <;>
   by_cases h3 : σ "k.recoveryConsumer.RefreshAssignments#0" = 0 <;>
-  minigo_simp [Trans.kcRevoke, h1, h2, h3]
+  minigo_simp [TransExpected.kcRevoke, Trans.kcRevoke, h1, h2, h3]
 
 
 /-- what one iteration of partitionAssignmentsChanged reads for candidate `(p, c)`: whether `p` is in the active map, and the
